@@ -5,6 +5,10 @@ Dense integer-lattice movies are linked with `adaptive_stop` / `adaptive_step` w
 groups, repeated reductions, splits into sub-groups, orphaned sources and the raise condition all
 occur.  The labelled output is judged step by step by the adaptive monitor (`ARUN`,
 Model/Adaptive.lean: plan = mirror of adaptive_link_wrap + split_subnet; Props/C12).
+Function mode: when the monitor accepts and the optimum of every final group is unique (`ties=0`,
+no capped step), the implementation's partition must equal the one of the deterministic adaptive
+algorithm `AdaptiveAlgo.algoLabelsA` (`AALGO`; Props/C12Algo `algoA_accepted` proves the monitor
+accepts that algorithm on every reachable state).
 Independent oracle: a Python re-statement of the property (union-find groups, exact Fractions,
 Hungarian optimum per finally solved group).
 """
@@ -262,6 +266,46 @@ def run_case(ctx, inp):
         if v == "capped":
             res.stat("capped")
         res.nontrivial = red > 0 or v == "expect-oversize"
+        # function mode: the monitor accepted the output and the optimum of every final group of
+        # every step is unique (and no step was beyond a cap) -> the implementation's partition
+        # must be the one of the deterministic adaptive algorithm (Props/C12Algo algoA_accepted)
+        if v == "ok" and not raised and m.get("ties") == "0" and m.get("capsteps") == "0":
+            a = ctx.ask("AALGO" + line[len("ARUN"):])
+            res.stat("function_mode_asked")
+            if a.startswith("ok"):
+                alab = [[int(x) for x in part.split(",") if x != ""] for part in a[3:].split("|")]
+                if len(alab) == len(levels) and all(len(x) == len(l[2]) for x, l in zip(alab, levels)):
+                    def lpart(labs):
+                        d = {}
+                        for k, ls in enumerate(labs):
+                            for i, l in enumerate(ls):
+                                d.setdefault(l, []).append((k, i))
+                        return frozenset(tuple(x) for x in d.values())
+                    res.stat("function_mode_compared")
+                    if red > 0:
+                        res.stat("function_mode_compared_reduced")
+                    if lpart(alab) != lpart([l[2] for l in levels]):
+                        res.violation("correspondence-break",
+                                      "unique optimum in every final group of every step, yet the "
+                                      "implementation's partition differs from the deterministic "
+                                      "adaptive algorithm model",
+                                      impl=[l[2] for l in levels], model=alab,
+                                      broken="AdaptiveAlgo.algoLabelsA",
+                                      signature=dict(what="adaptive-function-mode-differs"))
+                else:
+                    res.violation("correspondence-break",
+                                  "the deterministic adaptive algorithm model returns labels of another "
+                                  "shape than the implementation", impl=[l[2] for l in levels], model=a,
+                                  broken="AdaptiveAlgo.algoLabelsA",
+                                  signature=dict(what="adaptive-function-mode-shape"))
+            else:
+                # the monitor accepted labels for every step, so by algoA_accepted's `none` branch
+                # (monitor expects the raise exactly when the algorithm raises) this cannot happen
+                res.violation("correspondence-break",
+                              "the adaptive monitor accepts the implementation's labels but the "
+                              "deterministic adaptive algorithm model raises / fails: %s" % a,
+                              impl=[l[2] for l in levels], model=a, broken="AdaptiveAlgo.algoLabelsA",
+                              signature=dict(what="adaptive-function-mode-raises"))
         # adaptive == plain when nothing was reduced and nothing raised
         if v == "ok" and red == 0 and not raised:
             plain = None
